@@ -45,7 +45,10 @@ MUT = {
         ("Options: wamp.SetOption(nil, wamp.OptMode, c.cancelMode),", "Options: wamp.SetOption(nil, wamp.OptMode, wamp.CancelModeKillNoWait),", 1)]),
     "m16-stale-invocation-rerun": ("C16", "mutation", "an INVOCATION with an OLDER request id is no longer ignored (only the latest id is)", [
         ("\t\tif !c.sess.UpdateLastRecvIDLocked(reqID) {\n\t\t\tc.sess.Unlock()", "\t\tif !c.sess.UpdateLastRecvIDLocked(reqID) && c.sess.IsNewRecvID(reqID+1) {\n\t\t\tc.sess.Unlock()", 1)]),
-    "m16-error-with-registration-id": ("C16", "mutation", "ERROR for a failed invocation carries the registration id", [
+    "m16-error-with-registration-id": ("C16", "mutation", "the ERROR that answers an INTERRUPT carries the registration id instead of the request id", [
+        ("\t\t\t\terrMsg := &wamp.Error{\n\t\t\t\t\tType:        wamp.INVOCATION,\n\t\t\t\t\tRequest:     reqID,",
+         "\t\t\t\terrID := reqID\n\t\t\t\tif result.Err == wamp.ErrCanceled {\n\t\t\t\t\terrID = cliInvocation.registration\n\t\t\t\t}\n\t\t\t\terrMsg := &wamp.Error{\n\t\t\t\t\tType:        wamp.INVOCATION,\n\t\t\t\t\tRequest:     errID,", 1)]),
+    "x16-error-with-registration-id": ("C16", "mutation (suite red: caught by the tests as well)", "every ERROR for a failed invocation carries the registration id", [
         ("\t\t\t\terrMsg := &wamp.Error{\n\t\t\t\t\tType:        wamp.INVOCATION,\n\t\t\t\t\tRequest:     reqID,",
          "\t\t\t\terrMsg := &wamp.Error{\n\t\t\t\t\tType:        wamp.INVOCATION,\n\t\t\t\t\tRequest:     cliInvocation.registration,", 1)]),
     "r16-helper-and-logging": ("C16", "refactor", "waiter lookup extracted into a helper, extra debug logging, select cases reordered", [
@@ -58,12 +61,15 @@ MUT = {
         ("\tswitch msg := msg.(type) {\n\tcase *wamp.Subscribed:\n\t\t// Register the event handler for this subscription.\n\t\tc.sess.Lock()\n\t\tc.eventHandlers[msg.Subscription] = fn\n\t\tc.topicSubID[topic] = msg.Subscription\n\t\tc.sess.Unlock()\n\t\treturn nil\n\tcase *wamp.Error:\n\t\treturn fmt.Errorf(\"subscribing to topic '%v': %s\", topic,\n\t\t\twampErrorString(msg))\n\tdefault:\n\t\treturn unexpectedMsgError(msg, wamp.SUBSCRIBED)\n\t}",
          "\tinstall := func(subID wamp.ID) {\n\t\tc.sess.Lock()\n\t\tdefer c.sess.Unlock()\n\t\tc.eventHandlers[subID] = fn\n\t\tc.topicSubID[topic] = subID\n\t}\n\tif subscribed, ok := msg.(*wamp.Subscribed); ok {\n\t\tinstall(subscribed.Subscription)\n\t\treturn nil\n\t}\n\tif werr, ok := msg.(*wamp.Error); ok {\n\t\treturn fmt.Errorf(\"subscribing to topic '%v': %s\", topic,\n\t\t\twampErrorString(werr))\n\t}\n\treturn unexpectedMsgError(msg, wamp.SUBSCRIBED)", 1)]),
     # ------------------------------------------------------------- C17
-    "m17-cleanup-blocking-drain": ("C17", "mutation", "select...default removed from the handler-queue drain: the invocation goroutine blocks for ever", [
+    "x17-cleanup-blocking-drain": ("C17", "mutation (suite red: caught by the tests as well)", "select...default removed from the handler-queue drain: the invocation goroutine blocks for ever", [
         ("\tfor {\n\t\tselect {\n\t\tcase _, ok := <-handlerQueue:\n\t\t\tif !ok {\n\t\t\t\treturn // chan closed\n\t\t\t}\n\t\tdefault:\n\t\t\treturn\n\t\t}\n\t}",
          "\tfor {\n\t\t_, ok := <-handlerQueue\n\t\tif !ok {\n\t\t\treturn // chan closed\n\t\t}\n\t}", 1)]),
     "m17-abort-ignored": ("C17", "mutation", "ABORT no longer ends run(): Done never closed on ABORT", [
         ("\tcase *wamp.Abort:\n\t\treturn true\n", "\tcase *wamp.Abort:\n\t\tc.log.Println(\"router sent ABORT\")\n", 1)]),
-    "m17-peer-closed-twice": ("C17", "mutation", "Close() closes the peer a second time", [
+    "m17-peer-closed-twice": ("C17", "mutation", "the PPT-violation path of Call closes the peer itself again (Close() then closes it a second time)", [
+        ("\t\t\t\tc.sess.Send() <- abortMsg\n\t\t\t\t// Stop receiving; the peer itself is closed, once, by Close().\n\t\t\t\tc.sess.EndRecv(nil)",
+         "\t\t\t\tc.sess.Send() <- abortMsg\n\t\t\t\tc.sess.Close()", 2)]),
+    "x17-peer-closed-twice-in-close": ("C17", "mutation (suite red: caught by the tests as well)", "Close() closes the peer a second time", [
         ("\tc.activeInvHandlers.Wait()\n\tc.sess.Close()\n\n\treturn nil", "\tc.activeInvHandlers.Wait()\n\tc.sess.Close()\n\tdefer c.sess.Close()\n\n\treturn nil", 1)]),
     "m17-close-does-not-wait": ("C17", "mutation", "Close() no longer waits for the invocation goroutines", [
         ("\tc.activeInvHandlers.Wait()\n\tc.sess.Close()", "\tc.sess.Close()", 1)]),
